@@ -191,8 +191,17 @@ def fit(case):
     pm = case.get("pm", "predict")
     # only the method the optimizer is told to use returns the generated scores; the estimator's other
     # prediction methods answer on a reversed scale, so using another method at fit or predict time shows
+    scorer = ScoreColumnMulti(primary="predict_proba" if pm == "auto" else pm, out_dtype=_score_dtype(case, ss))
+    if case.get("pipeline"):
+        # the base estimator nested in a scikit-learn Pipeline behind an identity transformer
+        from sklearn.pipeline import Pipeline
+        from sklearn.preprocessing import FunctionTransformer
+
+        scorer = Pipeline([("identity", FunctionTransformer()), ("scorer", scorer)])
+        if case.get("prefit", True):
+            scorer.fit(X, ys)
     to = ThresholdOptimizer(
-        estimator=ScoreColumnMulti(primary="predict_proba" if pm == "auto" else pm, out_dtype=_score_dtype(case, ss)),
+        estimator=scorer,
         constraints=case["constraint"],
         objective=case["objective"],
         grid_size=case["grid"],
@@ -308,6 +317,7 @@ def config(draw, accuracy_bias=False):
         "prefit": draw(st.booleans()),
         "pm": draw(st.sampled_from(["predict", "decision_function", "auto", "predict_proba"])),
         "score_dtype": draw(st.sampled_from([None, None, "uint8", "int64", "uint16", "float32"])),
+        "pipeline": draw(st.integers(0, 4)) == 0,
     }
 
 
